@@ -313,6 +313,11 @@ def run_check(prop, tier, seed):
                 if rec.get("kind") == "asan_report":
                     rec["stderr"] = extract_report(getattr(t, "stderr_all", ""), "AddressSanitizer")
                     sanitizer_reports["asan"] += 1
+                elif rec.get("kind") == "tsan_report":
+                    txt = getattr(t, "stderr_all", "")
+                    i = txt.find("WARNING: ThreadSanitizer")
+                    rec["stderr"] = txt[i:i + 3500] if i >= 0 else txt[-1500:]
+                    sanitizer_reports["tsan"] += 1
                 violations.append(rec)
             elif ty == "sample":
                 rec["engine"], rec["flavour"] = eng, flav
